@@ -13,6 +13,7 @@ using namespace vh;
 // loop bodies with a designed transient length t and period p of the tracked state
 static Circuit loop_circuit(Rng &rng, Stats &st, uint64_t &reps_out, bool huge) {
     int tmpl = (int)rng.below(6);
+    if (huge && tmpl == 5) tmpl = 1;   // template 5 keeps unreset state whose sensitivity grows with the iteration count: not foldable, only run at small counts
     int p = 1 + (int)rng.below(6);      // period
     int t = (int)rng.below(7);          // transient
     uint32_t n = (uint32_t)std::max(2, p);
